@@ -71,3 +71,13 @@ CATALOGUE = [
     dict(id='XUB10-prefix-by-removeprefix', kind=B, props=['C18'],
          edits=[(DYN, "        return self.__class__.__name__[7:]", "        return self.__class__.__name__.removeprefix('Dynamic')")]),
 ]
+
+CATALOGUE += [
+    # the repaired defect comes back: the header line met with an empty buffer ends the record
+    dict(id='XU15-rdf-own-header-ends-record', kind=M, props=['C11'], rule='C11.D7-index-lands-on-header',
+         edits=[('chython/files/RDFrw.py', "                if buffer:  # next record found\n                    break\n                continue  # own header of the record: seek() positions the file on it\n",
+                 "                break\n")]),
+    dict(id='XUB11-rdf-own-header-skipped-first', kind=B, props=['C11'],
+         edits=[('chython/files/RDFrw.py', "                if buffer:  # next record found\n                    break\n                continue  # own header of the record: seek() positions the file on it\n",
+                 "                if not buffer:  # own header of the record\n                    continue\n                break\n")]),
+]
